@@ -24,10 +24,14 @@
         modelled here);
     * `C12_values_validate_same_ir_partial`   the same with `describes` PROVED for the document
         `emitDefs` writes, on the fragment `jsFrag` of one IR read by both jennies.
+    * `C12_emission_terminates`   the emitter terminates for every schema set (fix 56f489a; the model's
+        fuel `emitFuel S` is provably sufficient); `C12_prefix_loop_never_terminated` keeps the
+        former defect as a statement about the pre-fix loop.
   The unrestricted statements are FALSE on the current tree; the witnesses below are replayed on the
-  real emitter and an independent validator by the check (streams c12-pinned / c12-labpinned / c12-hang).
+  real emitter and an independent validator by the check (streams c12-pinned / c12-labpinned; c12-hang guards the repaired loop).
 -/
 import Cog.Sem.JsonSchemaOutSelf
+import Cog.Sem.JsonSchemaOutTerm
 namespace Cog.Sem.JSOut
 open Cog.IR Cog.Sem GoVal
 open Cog.OMap (rget rset)
@@ -311,13 +315,15 @@ theorem runObjs_snd (S : Schemas) (pkg : String) (objs : List Obj) (d : Def) (q 
     simp only [runObjs, List.foldl_cons, stepObj, allRefs, List.foldl_append]
     exact ih _ _
 
-/-- termination of the emitter is NOT guaranteed: a recursive object of another package is queued
-    again every time it is formatted, for every amount of fuel (the Go loop never ends) -/
-theorem C12_emission_counterexample_foreign_cycle : ∀ fuel, emitDefs fuel cycleSchemas cycleRoot = none := by
+/-- BEFORE fix 56f489a the loop wrote a queued object again every time it met it: a recursive object
+    of another package kept it running for every amount of fuel (the Go loop never ended).  Kept as a
+    checked statement about `closurePreFix`; the check replays the same schema set on the real
+    emitter under a watchdog, so that a relapse is a violation. -/
+theorem C12_prefix_loop_never_terminated : ∀ fuel, emitDefsPreFix fuel cycleSchemas cycleRoot = none := by
   have h0 : allRefs ((firstRound cycleSchemas cycleRoot).2.map (·.2)) = [("b", "Node")] := by decide +kernel
   have hstep : allRefs ((pushForeign cycleSchemas "a" [] ("b", "Node")).map (·.2)) = [("b", "Node")] := by
     decide +kernel
-  have key : ∀ fuel d q, allRefs (q.map (·.2)) = [("b", "Node")] → closure cycleSchemas "a" fuel d q = none := by
+  have key : ∀ fuel d q, allRefs (q.map (·.2)) = [("b", "Node")] → closurePreFix cycleSchemas "a" fuel d q = none := by
     intro fuel
     induction fuel with
     | zero => intro d q _; rfl
@@ -327,11 +333,39 @@ theorem C12_emission_counterexample_foreign_cycle : ∀ fuel, emitDefs fuel cycl
         cases q with
         | nil => simp [allRefs] at hq
         | cons _ _ => rfl
-      simp only [closure, hne, Bool.false_eq_true, if_false]
+      simp only [closurePreFix, hne, Bool.false_eq_true, if_false]
       apply ih
       rw [runObjs_snd, hq]
       exact hstep
   intro fuel
   exact key fuel _ _ h0
+
+/-! ### the emitter terminates (after fix 56f489a) -/
+
+/-- `GenerateSchema` terminates for EVERY schema set: each round that writes a definition records a
+    queue key (`SelfRef.String()` of an object of the loaded schemas) not recorded before, so
+    `emitFuel S` = (number of objects) + 2 rounds always suffice. -/
+theorem C12_emission_terminates (S : Schemas) (s : Schema) (fuel : Nat) (hf : emitFuel S ≤ fuel) :
+    (emitDefs fuel S s).isSome = true ∧ (emitJS fuel S s).isSome = true ∧ (emitOA fuel S s).isSome = true := by
+  have h := emitDefs_terminates S s fuel hf
+  refine ⟨h, ?_, ?_⟩
+  · unfold emitJS; cases hd : emitDefs fuel S s <;> simp_all
+  · unfold emitOA; cases hd : emitDefs fuel S s <;> simp_all
+
+/-- … so the closed-references theorem needs no termination hypothesis -/
+theorem C12_refs_resolve_total (S : Schemas) (s : Schema) (hc : emitClosed S s = true) :
+    ∃ doc D, emitJS (emitFuel S) S s = some doc ∧ emitDefs (emitFuel S) S s = some D ∧ doc = jsDoc s D ∧
+      ∀ x ∈ JS.refs doc, x ∈ keys D := by
+  obtain ⟨_, h2, _⟩ := C12_emission_terminates S s (emitFuel S) (Nat.le_refl _)
+  cases hd : emitJS (emitFuel S) S s with
+  | none => simp [hd] at h2
+  | some doc =>
+    obtain ⟨D, h3, h4, h5⟩ := C12_refs_resolve S s (emitFuel S) doc hc hd
+    exact ⟨doc, D, rfl, h3, h4, h5⟩
+
+/-- the recursive foreign object of the former witness: now emitted once, and its `$ref`s resolve -/
+example : (match emitDefs (emitFuel cycleSchemas) cycleSchemas cycleRoot with
+           | some D => keys D == ["Root", "Node"]
+           | none => false) = true := by decide +kernel
 
 end Cog.Sem.JSOut
